@@ -1,11 +1,20 @@
 """C02 — firing long Deferred chains / await loops uses constant stack.
 
-case = {"shape": ..., "result": "success"|"failure", "n": length}
+case = {"shape": ..., "result": "success"|"failure", "n": length,
+        "late": 0..2, "every": 1..3, "trail": 0|1}      (last three optional, chain shapes only)
+
+late   that many extra callbacks are added to link k+1 right after link k has started waiting on
+       it (for k % every == 0), so they sit *behind* the continuation in the inner Deferred's
+       callback list ("result observers attached as the chain is built")
+trail  every link gets one more pass-through callback after the chaining callback at build
+       time, so every waiter still has work to do when it is resumed
 
 Shapes (n Deferreds ds[0..n-1]; the callback of ds[k] returns ds[k+1]):
   outer-first          fire ds[0], ds[1], ... (each parks on the next one), the innermost last:
                        one firing hands the result up through all n-1 waiters
   inner-first          fire the innermost first, then outwards (every callback finds a fired Deferred)
+  parked-inner-first   fire ds[n-2], ds[n-3], ... ds[0] (each parks on a Deferred that is itself
+                       already parked), the innermost last
   outer-first-paused   as outer-first, but the innermost is paused, fired, then unpaused
   inner-first-paused   all paused, fired inner-first, then unpaused from the outside in: the last
                        unpause hands the result up through all waiters
@@ -28,15 +37,16 @@ META = dict(
     property="C02",
     level="exploration",
     technique="generated (shape, result kind, length) triples up to 2*10^4 (thorough 10^5) links; completion + final-result check and a stack-depth probe inside callbacks compared with the n=10 run of the same shape",
-    level_text="Six chain/await shapes x {success, failure} x lengths {1, 2, 10, 999, 1001, 5000, 10^4, 2*10^4} (thorough: up to 10^5) are all run, plus Hypothesis-drawn lengths (dense around the recursion limit); each run must finish without RecursionError under the default recursion limit, deliver the expected result, and show a stack depth inside callbacks at the first/middle/last link that exceeds the n=10 depth of the same shape by at most 8 frames. Sampled lengths, not all lengths.",
+    level_text="Seven chain/await shapes (chains also with callbacks queued behind the continuation of every link, added after the waiter parked, and with a trailing callback on every waiter) x {success, failure} x lengths {1, 2, 10, 999, 1001, 5000, 10^4, 2*10^4} (thorough: up to 10^5) are all run, plus Hypothesis-drawn lengths (dense around the recursion limit); each run must finish without RecursionError under the default recursion limit, deliver the expected result, and show a stack depth inside callbacks at the first/middle/last link that exceeds the n=10 depth of the same shape by at most 8 frames. Sampled lengths, not all lengths.",
     level_note="The depth probe counts Python frames (sys._getframe); C-level recursion is not measured. chainDeferred chains are outside the statement (documented to recurse) and not generated. The recursion limit is set to 1000 for the duration of a case because Hypothesis raises it while it runs a test.",
     design_ref="§5 C02",
-    rule="case = (shape, result, n). Non-trivial = n is larger than the recursion limit (1000), so a recursive implementation of that shape could not finish; distinct by (shape, result, n). Classes: per shape and per result kind, and length buckets.",
+    rule="case = (shape, result, n, late, every, trail). Non-trivial = n is larger than the recursion limit (1000), so a recursive implementation of that shape could not finish; distinct by the whole case. Classes: per shape, per result kind, length buckets, and the callback layout of the links (late observers behind the continuation / trailing callback on the waiter / plain).",
 )
 
 DEFAULT_LIMIT = 1000
 SLACK = 8
-SHAPES = ["outer-first", "inner-first", "outer-first-paused", "inner-first-paused", "inline", "coroutine"]
+SHAPES = ["outer-first", "inner-first", "parked-inner-first", "outer-first-paused", "inner-first-paused",
+          "inline", "coroutine"]
 
 
 class TagError(Exception):
@@ -52,7 +62,7 @@ def _depth():
     return n
 
 
-def _drive(shape, result, n):
+def _drive(shape, result, n, late=0, every=1, trail=0):
     """Build and fire one shape.  Returns dict(final=..., depths=[...], leftovers=int)."""
     from twisted.internet import defer
     from twisted.python.failure import Failure
@@ -114,6 +124,7 @@ def _drive(shape, result, n):
 
     ds = [Deferred() for _ in range(n)]
     marks = {0, (n - 1) // 2, max(0, n - 2)}
+    counts = {"late": 0, "trail": 0}
 
     def link(nxt):
         def cb(_):
@@ -124,13 +135,42 @@ def _drive(shape, result, n):
         depths.append(_depth() - base)
         return r
 
+    def mk_counting(kind, k):
+        if k in marks:
+            def cb(r):
+                counts[kind] += 1
+                depths.append(_depth() - base)
+                return r
+        else:
+            def cb(r):
+                counts[kind] += 1
+                return r
+        return cb
+
     for k in range(n - 1):
         ds[k].addCallback(link(ds[k + 1]))
+        if trail:
+            ds[k].addBoth(mk_counting("trail", k))
         if k in marks:
             ds[k].addBoth(probe)
     if n == 1:
         ds[0].addBoth(probe)
-    ds[0].addBoth(capture)
+
+    def capture_deep(r):
+        depths.append(_depth() - base)
+        return capture(r)
+    ds[0].addBoth(capture_deep)
+
+    expected_late = 0
+
+    def parked(k):
+        """ds[k] has just been fired / resumed: it now waits on ds[k+1] (or, in the inner-first
+        shape, has consumed its result).  Attach the late observers to ds[k+1]."""
+        nonlocal expected_late
+        if late and k % every == 0:
+            for _ in range(late):
+                ds[k + 1].addBoth(mk_counting("late", k))
+                expected_late += 1
 
     def fire_last():
         if fail:
@@ -138,21 +178,29 @@ def _drive(shape, result, n):
         else:
             ds[n - 1].callback(("end", n))
 
+    early = False
     if shape == "outer-first":
         for k in range(n - 1):
             ds[k].callback(k)
+            parked(k)
         fire_last()
     elif shape == "inner-first":
         fire_last()
         for k in range(n - 2, -1, -1):
             ds[k].callback(k)
+            parked(k)
+    elif shape == "parked-inner-first":
+        for k in range(n - 2, -1, -1):
+            ds[k].callback(k)
+            parked(k)
+        fire_last()
     elif shape == "outer-first-paused":
         for k in range(n - 1):
             ds[k].callback(k)
+            parked(k)
         ds[n - 1].pause()
         fire_last()
-        if final:
-            return dict(final=final, expect=None, depths=depths, leftovers=0, called=True, early=True)
+        early = bool(final)
         ds[n - 1].unpause()
     elif shape == "inner-first-paused":
         for d in ds:
@@ -160,19 +208,25 @@ def _drive(shape, result, n):
         fire_last()
         for k in range(n - 2, -1, -1):
             ds[k].callback(k)
-        if final:
-            return dict(final=final, expect=None, depths=depths, leftovers=0, called=True, early=True)
-        for d in ds:
-            d.unpause()
+        early = bool(final)
+        for k in range(n):
+            if k == n - 1:
+                early = early or bool(final)
+            ds[k].unpause()
+            if k < n - 1:
+                parked(k)
     else:
         raise ValueError(shape)
+    if early:
+        return dict(final=final, expect=None, depths=depths, leftovers=0, called=True, early=True)
     expect = ("f", "TagError", ("end", n)) if fail else ("v", ("end", n))
     # every Deferred of the chain has handed its result on
     leftovers = 0
     for d in ds:
         if getattr(d, "result", "unset") is not None or d.callbacks or d.paused:
             leftovers += 1
-    return dict(final=final, expect=expect, depths=depths, leftovers=leftovers, called=True)
+    return dict(final=final, expect=expect, depths=depths, leftovers=leftovers, called=True,
+                late=(counts["late"], expected_late), trail=(counts["trail"], (n - 1) if trail else 0))
 
 
 def _family(shape):
@@ -183,21 +237,27 @@ def run_case(ctx, case):
     shape, result, n = case["shape"], case["result"], int(case["n"])
     if shape not in SHAPES or result not in ("success", "failure") or n < 1:
         return
+    chain = shape not in ("inline", "coroutine")
+    late = int(case.get("late", 0)) if chain else 0
+    every = max(1, int(case.get("every", 1)))
+    trail = int(bool(case.get("trail", 0))) if chain else 0
     old = sys.getrecursionlimit()
     sys.setrecursionlimit(DEFAULT_LIMIT)
     try:
         try:
-            ref = _drive(shape, result, min(n, 10))
-            out = _drive(shape, result, n)
+            ref = _drive(shape, result, min(n, 10), late, every, trail)
+            out = _drive(shape, result, n, late, every, trail)
         except RecursionError as e:
             out = None
             msg = repr(e)
     finally:
         sys.setrecursionlimit(old)
-    tag = "%s:%s" % (_family(shape), result)
+    layout = ("late" if late else "") + ("+" if late and trail else "") + ("trail" if trail else "") or "plain"
+    tag = "%s:%s" % (_family(shape), result) + ("" if layout == "plain" else ":" + layout)
     if out is None:
         ctx.violation("recursion-error:" + tag, case,
-                      "shape=%s result=%s n=%d: RecursionError escaped (%s)" % (shape, result, n, msg))
+                      "shape=%s result=%s n=%d late=%d every=%d trail=%d: RecursionError escaped (%s)"
+                      % (shape, result, n, late, every, trail, msg))
     for which, o, nn in (("n=10 reference run", ref, min(n, 10)), ("run", out, n)):
         if o.get("early"):
             ctx.violation("paused-chain-ran-early:" + tag, case,
@@ -215,23 +275,40 @@ def run_case(ctx, case):
             ctx.violation("chain-links-not-drained:" + tag, case,
                           "shape=%s result=%s n=%d (%s): %d Deferreds of the chain still hold a result, "
                           "callbacks or a pause" % (shape, result, nn, which, o["leftovers"]))
+        for kind in ("late", "trail"):
+            ran, want = o.get(kind, (0, 0))
+            if ran != want:
+                ctx.violation("chain-callbacks-not-run-once:" + tag, case,
+                              "shape=%s result=%s n=%d (%s): %d of the %s callbacks ran, expected %d"
+                              % (shape, result, nn, which, ran, kind, want))
         if not o["depths"]:
             ctx.violation("probe-not-run:" + tag, case, "shape=%s n=%d (%s): no depth probe ran" % (shape, nn, which))
     d_ref, d_n = max(ref["depths"]), max(out["depths"])
     if d_n - d_ref > SLACK:
         ctx.violation("stack-depth-grows:" + tag, case,
-                      "shape=%s result=%s: stack depth inside callbacks is %d frames at n=%d but %d at n=%d "
-                      "(allowed growth %d)" % (shape, result, d_n, n, d_ref, min(n, 10), SLACK))
+                      "shape=%s result=%s late=%d every=%d trail=%d: stack depth inside callbacks is %d frames "
+                      "at n=%d but %d at n=%d (allowed growth %d)"
+                      % (shape, result, late, every, trail, d_n, n, d_ref, min(n, 10), SLACK))
     ctx.count("shape=" + shape)
     ctx.count("result=" + result)
     ctx.count("n<=10" if n <= 10 else "10<n<=1000" if n <= DEFAULT_LIMIT else "1000<n<=10000" if n <= 10000 else "n>10000")
+    if chain:
+        ctx.count("links: " + {"plain": "all callbacks attached before chaining",
+                               "late": "callbacks queued behind the continuation (added after the waiter parked)",
+                               "trail": "waiter has a trailing callback",
+                               "late+trail": "late observers and trailing callbacks"}[layout])
     md = ctx.extra.setdefault("max_depth_inside_callbacks", {})
     md[shape] = max(md.get(shape, 0), d_n)
     if n > DEFAULT_LIMIT:
         ctx.count("nontrivial")
-        ctx.nontrivial((shape, result, n))
+        ctx.nontrivial((shape, result, n, late, every if late else 1, trail))
+        if late:
+            ctx.count("nontrivial with callbacks behind the continuation")
         if n >= 10000 and result == "failure":
             ctx.sample(case)
+
+
+CHAIN_SHAPES = [s_ for s_ in SHAPES if s_ not in ("inline", "coroutine")]
 
 
 def _fixed(ctx, lengths):
@@ -240,6 +317,11 @@ def _fixed(ctx, lengths):
             for shape in SHAPES:
                 for result in ("success", "failure"):
                     yield dict(shape=shape, result=result, n=n)
+                    if shape in CHAIN_SHAPES:
+                        yield dict(shape=shape, result=result, n=n, late=1, every=1, trail=0)
+                        yield dict(shape=shape, result=result, n=n, late=0, every=1, trail=1)
+                        if n in (1001, 5000):
+                            yield dict(shape=shape, result=result, n=n, late=2, every=2, trail=1)
     enumerate_run(ctx, cases(), run_case)
 
 
@@ -258,5 +340,8 @@ def run(ctx):
         result=st.sampled_from(["success", "failure"]),
         n=st.one_of(st.integers(1, top), st.integers(900, 1100), st.integers(1, 40),
                     st.sampled_from([3, 100, 300, 333, 500, 998, 1000, 1002, 2000, 3000])),
+        late=st.sampled_from([0, 1, 1, 2]),
+        every=st.sampled_from([1, 1, 2, 3]),
+        trail=st.sampled_from([0, 1]),
     )
-    hyp_run(ctx, strat, run_case, ctx.pick(150, 1500), label="lengths")
+    hyp_run(ctx, strat, run_case, ctx.pick(200, 1500), label="lengths")
